@@ -128,6 +128,9 @@ def minimize_counterfactual(variable: Variable, graph: NxMixedGraph) -> Variable
     #      minimization of $Y_{\mathbf x}$ wouldn't preserve the counterfactual variable's value.  So
     #      we keep the star value.
     # RJC: Sorting the interventions makes the output more predictable and testing is therefore more robust.
+    if not treatment_interventions:
+        # none of the interventions is an ancestor of the variable, so it is just the variable itself
+        return Variable(name=variable.name, star=variable.star)
     return CounterfactualVariable(
         name=variable.name,
         star=variable.star,
